@@ -81,3 +81,17 @@ impl BitWriter {
 fn has_ff_byte(val: u64) -> bool {
     ((!val).wrapping_sub(0x_01010101_01010101u64) & val & 0x_80808080_80808080u64) != 0
 }
+
+#[cfg(jxl_oxide_verif)]
+impl BitWriter {
+    /// Verification hook H6: `(buf, valid_buf_bits, bytes emitted so far)`.
+    pub fn verif_state(&self) -> (u64, usize, &[u8]) {
+        (self.buf, self.valid_buf_bits, &self.output)
+    }
+}
+
+/// Verification hook H6: the byte-stuffing predicate used by `BitWriter`.
+#[cfg(jxl_oxide_verif)]
+pub fn verif_has_ff_byte(val: u64) -> bool {
+    has_ff_byte(val)
+}
